@@ -100,6 +100,14 @@ def pieces_of_arguments(e):
                 if idx >= len(args):
                     return None
                 kind, v, ty = args[idx]
+                vs = strip(v)
+                if kind == "display" and not p[2] and vs.k == "const" and isinstance(vs.a[0], bytes):
+                    # `{CONST}` with a constant &str: the text itself
+                    if out and out[-1][0] == "lit":
+                        out[-1] = ("lit", out[-1][1] + vs.a[0])
+                    else:
+                        out.append(("lit", vs.a[0]))
+                    continue
                 out.append(("arg", kind, v, ty, p[2]))
         return out
     return None
